@@ -1,10 +1,10 @@
 package models
 
 import (
-	authtypes "github.com/cosmos/cosmos-sdk/x/auth/types"
 	"bytes"
 	"context"
 	"errors"
+	authtypes "github.com/cosmos/cosmos-sdk/x/auth/types"
 	"math/big"
 
 	sdkmath "cosmossdk.io/math"
@@ -39,10 +39,12 @@ func NewBank(root *MultiStore) *Bank {
 	return &Bank{root: root, meta: map[string]banktypes.Metadata{}}
 }
 
-func accKey(addr sdk.AccAddress, denom string) []byte { return []byte("a/" + string(addr) + "/" + denom) }
-func modKey(name, denom string) []byte              { return []byte("m/" + name + "/" + denom) }
-func supKey(denom string) []byte                    { return []byte("s/" + denom) }
-func metaKey(denom string) []byte                   { return []byte("d/" + denom) }
+func accKey(addr sdk.AccAddress, denom string) []byte {
+	return []byte("a/" + string(addr) + "/" + denom)
+}
+func modKey(name, denom string) []byte { return []byte("m/" + name + "/" + denom) }
+func supKey(denom string) []byte       { return []byte("s/" + denom) }
+func metaKey(denom string) []byte      { return []byte("d/" + denom) }
 
 func (b *Bank) st(ctx context.Context) storetypes.KVStore {
 	if ctx == nil {
@@ -76,12 +78,20 @@ func (b *Bank) fault(label string) bool {
 }
 
 // Pre-state builders and oracle accessors (committed state of the root store).
-func (b *Bank) SetBalance(addr sdk.AccAddress, denom string, v sdkmath.Int) { setInt(b.st(nil), accKey(addr, denom), v) }
-func (b *Bank) SetModuleBalance(name, denom string, v sdkmath.Int)         { setInt(b.st(nil), modKey(name, denom), v) }
-func (b *Bank) SetSupply(denom string, v sdkmath.Int)                      { setInt(b.st(nil), supKey(denom), v) }
-func (b *Bank) Balance(addr sdk.AccAddress, denom string) sdkmath.Int      { return getInt(b.st(nil), accKey(addr, denom)) }
-func (b *Bank) ModuleBalance(name, denom string) sdkmath.Int               { return getInt(b.st(nil), modKey(name, denom)) }
-func (b *Bank) Supply(denom string) sdkmath.Int                            { return getInt(b.st(nil), supKey(denom)) }
+func (b *Bank) SetBalance(addr sdk.AccAddress, denom string, v sdkmath.Int) {
+	setInt(b.st(nil), accKey(addr, denom), v)
+}
+func (b *Bank) SetModuleBalance(name, denom string, v sdkmath.Int) {
+	setInt(b.st(nil), modKey(name, denom), v)
+}
+func (b *Bank) SetSupply(denom string, v sdkmath.Int) { setInt(b.st(nil), supKey(denom), v) }
+func (b *Bank) Balance(addr sdk.AccAddress, denom string) sdkmath.Int {
+	return getInt(b.st(nil), accKey(addr, denom))
+}
+func (b *Bank) ModuleBalance(name, denom string) sdkmath.Int {
+	return getInt(b.st(nil), modKey(name, denom))
+}
+func (b *Bank) Supply(denom string) sdkmath.Int { return getInt(b.st(nil), supKey(denom)) }
 func (b *Bank) SetMeta(denom string) {
 	b.meta[denom] = banktypes.Metadata{Base: denom}
 	b.mst(nil).Set(metaKey(denom), []byte{1})
